@@ -133,7 +133,14 @@ class C06(runner.Prop):
         # a route must not change what the flatten route records (namespace, none_is_leaf): the expected
         # compatibility below is computed from the *flatten* route's namespaces, not from the routed specs' own
         FA, FB = spec_via('flatten', ta, cfga, ma), spec_via('flatten', tb, cfgb, mb)
-        for name, R, F in (('a', A, FA), ('b', B, FB)):
+        for name, R, F, msR in (('a', A, FA, msa), ('b', B, FB, msb)):
+            if case['r' + name] == 'collection' and R.namespace == '' and R.none_is_leaf == F.none_is_leaf \
+                    and not any(n.kind == 'custom' for n in msR.walk()):
+                # flatten tags a treespec with the namespace also when only the namespace's insertion-ordered mode (no
+                # custom node) made it relevant; the constructors do not - observed on the unchanged tree, and equality
+                # treats '' as compatible with every namespace, so the property is not concerned
+                ctx.label('constructor_without_mode_namespace_tag')
+                continue
             if R.namespace != F.namespace or R.none_is_leaf != F.none_is_leaf:
                 ctx.fail('route/attributes', f'{case["r" + name]}: namespace {R.namespace!r} none_is_leaf {R.none_is_leaf} '
                                              f'vs flatten route {F.namespace!r} {F.none_is_leaf}; spec={R}')
